@@ -21,20 +21,25 @@ WATCHDOG = 20
 
 
 # ---------------------------------------------------------------------- helpers
-def cfg(seq, maxgen, maxenv, maxfail, blocking, invariants, view=True):
+def cfg(seq, maxgen, maxenv, maxfail, blocking, invariants, view=True, safewatch=None):
+    if safewatch is None:
+        safewatch = not blocking        # pinned tree: blocking send + unsafe close; repaired: neither
     n = {2: ("Seq2", "Set2"), 3: ("Seq3", "Set3"), 4: ("Seq4", "Set4")}[seq]
     t = ["SPECIFICATION Spec", "CONSTANTS", "  CompSeq <- %s" % n[0], "  Comps <- %s" % n[1],
          "  MaxGen = %d" % maxgen, "  MaxEnv = %d" % maxenv, "  MaxFail = %d" % maxfail,
-         "  Blocking = %s" % ("TRUE" if blocking else "FALSE"), "  Nobody = Nobody"]
+         "  Blocking = %s" % ("TRUE" if blocking else "FALSE"),
+         "  SafeWatch = %s" % ("TRUE" if safewatch else "FALSE"), "  Nobody = Nobody"]
     if view:
         t.append("VIEW view")
+    else:       # random simulation: bias the choice of actions (see CollectorGen.tla)
+        t += ["  EnvGate <- SimEnvGate", "  FailGate <- SimFailGate", "  TimeoutGate <- SimTimeoutGate"]
     t += ["INVARIANT " + i for i in invariants]
     t.append("CHECK_DEADLOCK FALSE")
     return "\n".join(t) + "\n"
 
 
 CLAUSES = ["InvStateOrder", "InvEndsClosed", "InvServiceShutdownOnce", "InvProvidersShutdownOnce", "InvNoOverlap",
-           "InvFailedBringUpCleansUp", "InvShutdownIdempotent", "InvRunReturns"]
+           "InvFailedBringUpCleansUp", "InvShutdownIdempotent", "InvRunReturns", "InvNotifySafe"]
 COMPS = {2: ["e1", "r1"], 3: ["x", "e1", "r1"], 4: ["x", "e1", "r1", "r2"]}
 
 
@@ -63,6 +68,8 @@ def project(beh, comps, salt=0):
         if e["at"] == "post":
             continue            # the driver always calls Shutdown() again after Run returned
         inj = {"k": e["k"]}
+        if e["k"] == "sigterm" and (len(steps) + salt) % 2:
+            inj["k"] = "sigint"         # the model has one termination signal; the code treats both alike
         if e["k"] == "fatal":
             inj["c"] = e["c"]
         if e["k"] == "shutdown":
@@ -141,7 +148,8 @@ def normalise(tr):
         if cut and ev != "end":
             continue
         n = dict(ev=ev, st=e.get("st", "Starting"), id="", comps=[], gen=e.get("gen", 0), comp=e.get("comp", ""),
-                 ok=not e.get("err", False), reg=bool(e.get("reg", False)), kind=e.get("kind", ""), st0="", bad=False)
+                 ok=not e.get("err", False), reg=bool(e.get("reg", False)),
+                 kind="sigterm" if e.get("kind") == "sigint" else e.get("kind", ""), st0="", bad=False)
         if ev == "reset":
             n["id"], n["comps"], n["st"] = e["id"], e["script"]["comps"], "Starting"
         elif ev == "ext" and "iid" in e:
@@ -159,24 +167,47 @@ def normalise(tr):
 
 def monitor(c, results, label):
     """TLC evaluates the clauses on every trace; returns {trace id: [(clause, line in trace)]}"""
-    lines, start = [], {}
-    for sc, tr in results:
-        start[sc["id"]] = len(lines)
-        lines += normalise(tr)
-    f = os.path.join(c.work, "%s_observed.ndjson" % label)
-    vlib.write_ndjson(f, lines)
-    r = c.tlc("Collector", "CollectorTrace", workers=1, files={"observed.ndjson": f}, timeout=1800,
-              label=label, count=False, heap="8g", tag="VERDICT")
-    if r.timed_out or r.error or len(r.printed) != 1:
-        raise vlib.Inconclusive("trace validation %s failed: %s\n%s" % (label, r.error, r.out[-1500:]))
-    v = r.printed[0]
-    if v["lines"] != len(lines):
-        raise vlib.Inconclusive("trace validation %s read %s of %d lines" % (label, v["lines"], len(lines)))
-    c.evaluations += len(lines)
+    from concurrent.futures import ThreadPoolExecutor
+    nb = max(1, min(6, vlib.NCPU // 3, len(results) // 200 + 1))
+    batches = [results[k::nb] for k in range(nb)]
+
+    def one(k):
+        lines, start = [], {}
+        for sc, tr in batches[k]:
+            start[sc["id"]] = len(lines)
+            lines += normalise(tr)
+        f = os.path.join(c.work, "%s_observed_%d.ndjson" % (label, k))
+        vlib.write_ndjson(f, lines)
+        r = c.tlc("Collector", "CollectorTrace", workers=1, files={"observed.ndjson": f}, timeout=1800,
+                  label="%s_%d" % (label, k), count=False, heap="4g", tag="VERDICT")
+        if r.timed_out or r.error or len(r.printed) != 1:
+            raise vlib.Inconclusive("trace validation %s failed: %s\n%s" % (label, r.error, r.out[-1500:]))
+        v = r.printed[0]
+        if v["lines"] != len(lines):
+            raise vlib.Inconclusive("trace validation %s read %s of %d lines" % (label, v["lines"], len(lines)))
+        return len(lines), [(x["t"], x["c"], x["l"] - start[x["t"]]) for x in v["viol"]]
+
+    with ThreadPoolExecutor(nb) as ex:
+        outs = list(ex.map(one, range(nb)))
     bad = {}
-    for x in v["viol"]:
-        bad.setdefault(x["t"], []).append((x["c"], x["l"] - start[x["t"]]))
+    for n, viol in outs:
+        c.evaluations += n
+        for t, cl, l in viol:
+            bad.setdefault(t, []).append((cl, l))
     return bad
+
+
+def shape(sc, is_counterexample):
+    kinds = sorted({i["k"] for st in sc["steps"] for i in st["ev"]})
+    anchors = sorted({st["at"].split(":")[0] + (":g2+" if st["at"].count(":") and st["at"].split(":")[1] not in ("1",) else "")
+                      for st in sc["steps"]})
+    fails = sorted({f.split(":")[0] + (":g2+" if f.split(":")[1] != "1" else "") for f in sc["fail"]})
+    return (tuple(kinds), tuple(anchors), tuple(fails), is_counterexample, len(sc["comps"]))
+
+
+def weight(sc):
+    """prefer scripts whose interleaving is pinned by callbacks (no concurrent injection), then small ones"""
+    return (any(st.get("conc") for st in sc["steps"]), len(json.dumps(sc)))
 
 
 def describe(sc):
@@ -205,22 +236,27 @@ def run(c):
     ncpu = vlib.NCPU
     shards = max(2, min(8, ncpu // 2))
 
-    # 1. design (repaired hand-over), all clauses + NotifySafe reported separately
-    seq, mg, me, mf = (3, 2, 3, 1) if q else (3, 3, 5, 2)
+    # 1. design: the repaired hand-over of fatal errors and the repaired watcher close; every clause
+    seq, mg, me, mf = (3, 2, 3, 1) if q else (4, 3, 5, 2)
     c.tlc_must_pass("Collector", "CollectorMC", cfg_text=cfg(seq, mg, me, mf, False, ["TypeOK"] + CLAUSES),
                     coverage=True, timeout=1500, label="design", workers=min(12, ncpu),
                     vacuous_ok=("FatalUnlock",))
     if not q:
-        c.tlc_must_pass("Collector", "CollectorMC", cfg_text=cfg(4, 2, 4, 1, False, ["TypeOK"] + CLAUSES),
-                        timeout=1500, label="design4", workers=min(12, ncpu))
-    # the pinned hand-over (blocking send under the reporter mutex): TLC is expected to find the
-    # deadlock; recorded in the evidence, never a verdict by itself
-    rb = c.tlc("Collector", "CollectorMC", cfg_text=cfg(seq, 2, 3, 1, True, ["TypeOK"] + CLAUSES), timeout=600,
-               label="design_blocking_send", workers=min(12, ncpu), count=False)
-    c.extra["model_of_blocking_send"] = "counterexample: %s" % (rb.error,) if rb.error else "no counterexample"
-    rn = c.tlc("Collector", "CollectorMC", cfg_text=cfg(seq, 2, 3, 1, False, ["InvNotifySafe"]), timeout=600,
-               label="design_notify", workers=min(12, ncpu), count=False)
-    c.extra["model_of_watcher_close"] = "counterexample: %s" % (rn.error,) if rn.error else "no counterexample"
+        c.tlc_must_pass("Collector", "CollectorMC", cfg_text=cfg(2, 4, 6, 2, False, ["TypeOK"] + CLAUSES),
+                        timeout=1500, label="design_more_reloads", workers=min(12, ncpu))
+    # the two pinned mechanisms, one at a time: TLC is expected to find the deadlock (blocking send under
+    # the reporter mutex) and the panic (watcher channel closed under a notifier).  Recorded in the
+    # evidence; never a verdict by itself (their counterexamples become scripts in step 2).
+    rb = c.tlc("Collector", "CollectorMC", cfg_text=cfg(3, 2, 3, 1, True, ["TypeOK"] + CLAUSES, safewatch=True),
+               timeout=600, label="design_blocking_send", workers=min(12, ncpu), count=False)
+    c.extra["model_with_blocking_send"] = "counterexample: %s" % (rb.error,) if rb.error else "no counterexample"
+    rn = c.tlc("Collector", "CollectorMC", cfg_text=cfg(3, 2, 3, 1, False, ["TypeOK"] + CLAUSES, safewatch=False),
+               timeout=600, label="design_unsafe_close", workers=min(12, ncpu), count=False)
+    c.extra["model_with_unsafe_watcher_close"] = "counterexample: %s" % (rn.error,) if rn.error else "no counterexample"
+    if not (rb.error and rb.error[0] == "invariant" and rb.error[1] == "InvRunReturns"):
+        raise vlib.Inconclusive("the model of the blocking send no longer shows the deadlock: %s" % (rb.error,))
+    if not (rn.error and rn.error[0] == "invariant" and rn.error[1] == "InvNotifySafe"):
+        raise vlib.Inconclusive("the model of the unsafe watcher close no longer shows the panic: %s" % (rn.error,))
 
     binp = build(c)
 
@@ -234,8 +270,8 @@ def run(c):
         if q:
             gens += [("simB", 4, 3, 5, 2, True, "num=300", 90), ("simF", 4, 3, 5, 2, False, "num=300", 90)]
         else:
-            gens += [("genB4", 4, 2, 4, 1, True, None, None), ("genF4", 3, 3, 4, 2, False, None, None),
-                     ("simB", 4, 3, 6, 2, True, "num=3000", 110), ("simF", 4, 3, 6, 2, False, "num=3000", 110)]
+            gens += [("genB4", 4, 2, 4, 1, True, None, None), ("genF3", 3, 3, 4, 2, False, None, None),
+                     ("simB", 4, 4, 7, 3, True, "num=4000", 140), ("simF", 4, 4, 7, 3, False, "num=4000", 140)]
         for label, sq, g, e, f, blocking, sim, depth in gens:
             pr = generate(c, label, sq, g, e, f, blocking, simulate=sim, depth=depth, timeout=900)
             behs += [(b, COMPS[sq]) for b in pr]
@@ -250,52 +286,90 @@ def run(c):
                 counter.add(sc["id"])
         limit = 1500 if q else 12000
         if len(scripts) > limit:
-            # keep every counterexample of the model, sample the rest
-            keep = [s for s in scripts if s["id"] in counter]
-            rest = [s for s in scripts if s["id"] not in counter]
-            c.rng.shuffle(rest)
-            scripts = keep[:limit // 2] + rest[:limit - min(len(keep), limit // 2)]
+            # stratified sample: round-robin over the "shapes" of the scripts (kinds of events, kinds
+            # of anchors, kinds of failures, counterexample of the model or not), so that no family
+            # (e.g. the many ways of placing fatal errors) crowds out the others
+            buckets = {}
+            c.rng.shuffle(scripts)
+            for sc in scripts:
+                buckets.setdefault(shape(sc, sc["id"] in counter), []).append(sc)
+            order = sorted(buckets, key=str)
+            c.rng.shuffle(order)
+            scripts = []
+            while len(scripts) < limit:
+                for k in order:
+                    if buckets[k] and len(scripts) < limit:
+                        scripts.append(buckets[k].pop())
+            c.extra["script_shapes"] = len(order)
         c.rng.shuffle(scripts)
         c.extra["scripts"] = len(scripts)
         c.extra["scripts_from_model_counterexamples"] = len([s for s in scripts if s["id"] in counter])
         c.log("%d distinct scripts (%d from counterexamples of the model)" % (len(scripts), len(counter)))
 
     # 3. run them on the real collector, 4. monitor
+    t0 = time.time()
     results = run_scripts(c, binp, scripts, "main", shards)
+    c.log("%d scripts run on the real collector in %.1fs (%d driver processes)" % (len(results), time.time() - t0, shards))
+    skipped = [sc for sc, tr in results if any(e["ev"] == "skipped" for e in tr)]
+    results = [(sc, tr) for sc, tr in results if not any(e["ev"] == "skipped" for e in tr)]
+    if skipped:
+        c.log("%d scripts with fatal errors were NOT run: their driver process had already shown the same "
+              "deadlock (reporter blocked in chan send under the reporter mutex) 8 times" % len(skipped))
+        c.extra["scripts_skipped_after_repeated_deadlock"] = len(skipped)
+    t0 = time.time()
     bad = monitor(c, results, "mon")
+    c.log("monitor: %d lines evaluated by TLC in %.1fs" % (c.evaluations, time.time() - t0))
     by_id = {sc["id"]: (sc, tr) for sc, tr in results}
     nontrivial = 0
     for sc, tr in results:
         if sum(1 for e in tr if e["ev"] == "ext") >= 2:
             nontrivial += 1
     # re-confirm watchdog expiries once (alone, full bound) before reporting
-    redo = [by_id[t][0] for t, v in bad.items() if any(cl == "RunReturns" for cl, _ in v)]
-    confirmed = {}
-    if redo:
-        sample = redo[:16]
-        res2 = run_scripts(c, binp, sample, "confirm", min(shards, len(sample)))
+    # (the smallest script of every distinct blocked call site, in a fresh driver process, so that the
+    # full bound applies again)
+    redo = {}
+    for t, v in bad.items():
+        if any(cl == "RunReturns" for cl, _ in v):
+            sg = signature_of("RunReturns", by_id[t][1])
+            if sg not in redo or weight(by_id[t][0]) < weight(redo[sg]):
+                redo[sg] = by_id[t][0]
+    confirmed = {}      # signature -> reproduced
+    if redo and not c.replay:
+        sample = list(redo.values())[:8]
+        res2 = run_scripts(c, binp, sample, "confirm", len(sample))
         bad2 = monitor(c, res2, "mon2")
         for sc, tr in res2:
-            confirmed[sc["id"]] = any(cl == "RunReturns" for cl, _ in bad2.get(sc["id"], []))
+            sg = [k for k, v in redo.items() if v["id"] == sc["id"]][0]
+            confirmed[sg] = any(cl == "RunReturns" for cl, _ in bad2.get(sc["id"], []))
+            c.log("re-run of %s: %s" % (describe(sc), "watchdog expired again" if confirmed[sg] else "Run returned"))
     reported = 0
-    for tid, v in bad.items():
+    per_sig = {}
+    for tid, v in sorted(bad.items(), key=lambda kv: weight(by_id[kv[0]][0])):   # pinned, small scripts first
         sc, tr = by_id[tid]
         for clause, line in v:
             sig = signature_of(clause, tr)
-            if clause == "RunReturns":
-                structural = sig and sig.startswith("Host.")
-                if tid in confirmed and not confirmed[tid] and not structural:
+            if clause == "RunReturns" and not c.replay:
+                # a dump that shows the reporter/run-loop deadlock is proof by itself; anything else
+                # must have expired again on the re-run
+                structural = bool(sig) and sig.startswith("Host.")
+                if not confirmed.get(sig) and not structural:
                     raise vlib.Inconclusive("watchdog expiry not reproduced on re-run: %s (%s)" % (describe(sc), sig))
-                if tid not in confirmed and not structural and not any(confirmed.values()):
-                    raise vlib.Inconclusive("watchdog expiry without confirmation: %s (%s)" % (describe(sc), sig))
+            per_sig[(clause, sig)] = per_sig.get((clause, sig), 0) + 1
+            if per_sig[(clause, sig)] > 3:
+                continue        # same clause, same call site: three replay files are enough
             what = "%s broken on the real collector at trace line %d: %s" % (clause, line, describe(sc))
             if sig:
                 what += " -- " + sig
-            detail = [e for e in tr if e["ev"] in ("timeout", "notify_done", "run_return")][-2:]
-            if c.violation(what, replay_obj=dict(script=sc, clause=clause, line=line, detail=detail,
-                                                 trace=[json.dumps(e, separators=(",", ":")) for e in tr[:120]]),
-                           signature=sig):
+            for e in tr:
+                if e["ev"] == "timeout" and clause == "RunReturns":
+                    what += " || state %s after %ss; %s" % (e["st"], e.get("waited_s"), "; ".join(e.get("detail", [])))
+            # the replay object is the script alone: the same script always maps to the same file
+            if c.violation(what, replay_obj=dict(script=sc, clause=clause), signature=sig,
+                           replay_path=c.replay if c.replay else None):
                 reported += 1
+    for (clause, sig), n in sorted(per_sig.items(), key=str):
+        c.log("broken: %-22s x%-4d %s" % (clause, n, sig or ""))
+    c.extra["broken_clauses"] = {"%s | %s" % k: n for k, n in per_sig.items()}
     ok_traces = len([1 for sc, tr in results if sc["id"] not in bad])
     c.traces_validated += ok_traces
     c.log("%d scripts run, %d traces satisfy every clause, %d with broken clauses" % (len(results), ok_traces, len(bad)))
